@@ -17,10 +17,10 @@ func init() {
 		ID: "C29",
 		Explanation: "Decides the structural part of C29's 'from the session's view' clause - commands stored concurrently by other sessions never enter this session's history walk. (FROZEN-UPPER) the bound of the shared history is read from the database exactly once per store (DB.NextCmdSeq feeds only the store literal), it and every field initialised from it are written nowhere else, and every read of the database by the store or its cursor is bounded by it: CmdsWithSeq gets it as its upper end, PrevCmd starts from the cursor's own position (initialised to the bound), and a command returned by NextCmd becomes the cursor's position only on the edge where its sequence number is below the bound. (SESSION-ADD) the hybrid store records a command added during the session in the session store under the sequence number the shared store returned for it, after adding it to the shared store. Which commands match a prefix, the order of the walk, de-duplication and the hand-off between the two cursors are state-machine behaviour and are not decided.",
 		NotCovered:  "matching, newest-first order, de-duplication, the shared/session cursor hand-off, end-of-history reporting",
-		Rules:       []string{"FROZEN-UPPER: the shared-history bound is read once, never rewritten, and bounds every database read", "SESSION-ADD: session commands are recorded under the sequence number returned by the shared store"},
+		Rules:       []string{"FROZEN-UPPER: the shared-history bound is read once, never rewritten, and bounds every database read", "DIRECTION-PURE: a cursor built on other cursors moves them only in its own direction", "ALLCMDS-FRESH: no store hands out the slice that holds its history", "SESSION-ADD: session commands are recorded under the sequence number returned by the shared store"},
 		Patterns:    []string{"./pkg/cli/histutil"},
-		Run:         runC29,
-		MinCounts:   map[string]int{"FROZEN-UPPER": 6, "SESSION-ADD": 1},
+		Run:         func(p *core.Program, r *core.Report) { runC29(p, r); runDirectionPure(p, r); runAllCmdsFresh(p, r) },
+		MinCounts:   map[string]int{"FROZEN-UPPER": 6, "SESSION-ADD": 1, "DIRECTION-PURE": 4, "ALLCMDS-FRESH": 2},
 		Trusted:     trustedBase,
 		Controls: []core.Control{
 			{Name: "cursor-refreshes-bound", Rule: "FROZEN-UPPER", File: "pkg/cli/histutil/db_store.go", Old: "func (c *dbStoreCursor) Next() {\n", New: "func (c *dbStoreCursor) Next() {\n\tif n, err := c.db.NextCmdSeq(); err == nil {\n\t\tc.upper = n\n\t}\n", Fire: true, Want: "NextCmdSeq", Quick: true},
@@ -29,6 +29,9 @@ func init() {
 			{Name: "next-bound-off-by-one", Rule: "FROZEN-UPPER", File: "pkg/cli/histutil/db_store.go", Old: "\tif cmd.Seq < c.upper {\n\t\tc.set(cmd, err, c.upper)\n\t}", New: "\tif cmd.Seq <= c.upper {\n\t\tc.set(cmd, err, c.upper)\n\t}", Fire: true, Want: "NextCmd"},
 			{Name: "prev-from-fresh-bound", Rule: "FROZEN-UPPER", File: "pkg/cli/histutil/db_store.go", Old: "cmd, err := c.db.PrevCmd(c.cmd.Seq, c.prefix)", New: "cmd, err := c.db.PrevCmd(c.cmd.Seq+1, c.prefix)", Fire: true, Want: "PrevCmd"},
 			{Name: "session-add-under-own-number", Rule: "SESSION-ADD", File: "pkg/cli/histutil/hybrid_store.go", Old: "s.session.AddCmd(storedefs.Cmd{Text: cmd.Text, Seq: seq})", New: "s.session.AddCmd(storedefs.Cmd{Text: cmd.Text, Seq: -1})\n\t_ = seq", Fire: true, Want: "AddCmd"},
+			{Name: "hybrid-next-steps-shared-back", Rule: "DIRECTION-PURE", File: "pkg/cli/histutil/hybrid_store.go", Old: "\t\tc.useShared = false\n\t\tc.session.Next()", New: "\t\tc.shared.Prev()\n\t\tc.useShared = false\n\t\tc.session.Next()", Fire: true, Want: "Next"},
+			{Name: "revert-fix-allcmds-hands-out-own-slice", Rule: "ALLCMDS-FRESH", File: "pkg/cli/histutil/mem_store.go", Old: "return slices.Clone(s.cmds), nil", New: "_ = slices.Clone[[]storedefs.Cmd]\n\treturn s.cmds, nil", Fire: true, Want: "AllCmds", Quick: true},
+			{Name: "benign-allcmds-copy-by-append", Rule: "ALLCMDS-FRESH", File: "pkg/cli/histutil/mem_store.go", Old: "return slices.Clone(s.cmds), nil", New: "return append(slices.Clone(s.cmds[:0]), s.cmds...), nil", Fire: false},
 			{Name: "benign-bound-check-reversed", Rule: "FROZEN-UPPER", File: "pkg/cli/histutil/db_store.go", Old: "\tif cmd.Seq < c.upper {\n\t\tc.set(cmd, err, c.upper)\n\t}", New: "\tif c.upper > cmd.Seq {\n\t\tc.set(cmd, err, c.upper)\n\t}", Fire: false},
 		},
 	})
